@@ -394,6 +394,26 @@ where
     (gc_states, gc_edges)
 }
 
+/// Verification hook (add-only; compiled only with `--cfg grmtools_verif`): the private
+/// `Itemset::weakly_compatible`, so that it can be compared with its model on explicit item sets.
+#[cfg(grmtools_verif)]
+pub fn verif_weakly_compatible<StorageT: Hash + PrimInt + Unsigned>(
+    a: &Itemset<StorageT>,
+    b: &Itemset<StorageT>,
+) -> bool {
+    a.weakly_compatible(b)
+}
+
+/// Verification hook (add-only; compiled only with `--cfg grmtools_verif`): the private
+/// `Itemset::weakly_merge` (`b` is merged into `a`; the result is the "changed" flag).
+#[cfg(grmtools_verif)]
+pub fn verif_weakly_merge<StorageT: Hash + PrimInt + Unsigned>(
+    a: &mut Itemset<StorageT>,
+    b: &Itemset<StorageT>,
+) -> bool {
+    a.weakly_merge(b)
+}
+
 #[cfg(test)]
 mod test {
     use vob::Vob;
